@@ -47,7 +47,7 @@ def _lib_ops_same_set(d):
 
 def draw_case(data, tier):
     d = data.draw(st.sampled_from([1, 2, 2, 3, 3]), label="d")
-    hi = {1: 6, 2: 5, 3: 4}[d]
+    hi = {1: 6, 2: 5, 3: 4}[d] if data.draw(st.integers(0, 7), label="big_extents") else {1: 40, 2: 11, 3: 6}[d]
     shape, cls = gen.draw_shape(data, d, 1, hi)
     k, p = gen.draw_type(data, d, 3 if d == 2 else 2)
     entry = data.draw(st.sampled_from(["array", "gi", "mi", "mi"]), label="entry")
